@@ -783,7 +783,7 @@ fn run_inference(l: &[Val], alpha: &[char]) -> Option<(Val, Vec<String>)> {
         sort,
     };
     let texts2 = texts.clone();
-    let out = with_timeout(10000, move || {
+    let out = with_timeout(30000, move || {
         let it = texts2
             .into_iter()
             .enumerate()
@@ -874,7 +874,10 @@ fn run_inference(l: &[Val], alpha: &[char]) -> Option<(Val, Vec<String>)> {
             }
         }
         Some(-777) => tags.push("panic".into()),
-        Some(-778) => tags.push("hang".into()),
+        Some(-778) => {
+            tags.push("hang".into());
+            tags.push("timing-verdict".into());
+        }
         _ => tags.push("other".into()),
     }
     Some((out, tags))
@@ -1150,7 +1153,11 @@ impl Prop for C16 {
         // 0. the windows
         let s2 = s.clone();
         // scale cases (long texts) get a longer budget on the shared machine
-        let budget = if s.len() >= 255 { 30000 } else { 5000 };
+        // (the base budget was 5 s; on the shared machine, with the busy-waiting Pipe workers of the inference cases running in
+        // the neighbouring shards, a call that needs microseconds has been seen to miss it: 20 s, and a verdict that rests on
+        // the limit is tagged `timing-verdict` below, so that the runner repeats the case alone with VERIF_PATIENCE before it
+        // believes it — the runner recognises a hang by itself only when the WHOLE output is (-778))
+        let budget = if s.len() >= 255 { 30000 } else { 20000 };
         let wres = with_timeout(budget, move || {
             let r = match kind {
                 0 => windows(&s2, &WindowConfig::Character(max, ctx, g)),
@@ -1319,7 +1326,10 @@ impl Prop for C16 {
             (Some(1), Some(1)) => tags.push("err-config".into()),
             (Some(1), Some(2)) => tags.push("err-wide".into()),
             (Some(-777), _) => tags.push("panic".into()),
-            (Some(-778), _) => tags.push("hang".into()),
+            (Some(-778), _) => {
+                tags.push("hang".into());
+                tags.push("timing-verdict".into());
+            }
             _ => tags.push("other".into()),
         }
         Some((Val::L(vec![wres, csv, Val::L(pv), pcs, pbs]), tags))
